@@ -740,6 +740,7 @@ func exclusiveWiring(c *Ctx) {
 		}
 	}
 	exclusiveValueRule(c)
+	rateLimitTimer(c)
 	// option constructors: the returned closure sets exactly its own field from the constructor's argument
 	for _, oc := range [][2]string{{"ExclusiveKey", "exclusiveConfig.key"}, {"ExclusiveWork", "exclusiveConfig.work"}, {"ExclusiveWait", "exclusiveConfig.wait"}, {"ExclusiveStart", "exclusiveConfig.start"}} {
 		q := c.F(oc[0])
@@ -863,4 +864,45 @@ func exclusiveValueRule(c *Ctx) {
 		}
 	}
 	q.add("PROV", "ExclusiveValue installs the adapter as the work", okw, pickS(okw, "return ExclusiveWork(adapter or nil)", "ExclusiveValue does not return ExclusiveWork of its adapter"), works...)
+}
+
+// rateLimitTimer: ExclusiveRateLimit's option is reused across keys and executions of different keys overlap, so the
+// timer that pads an execution is created by that execution (never hoisted into the option and re-armed): a shared
+// timer fires once and leaves every other waiting execution - and with it its key - stuck for ever.
+func rateLimitTimer(c *Ctx) {
+	P := c.P
+	q := c.F("ExclusiveRateLimit")
+	if !q.ok() {
+		return
+	}
+	var news, resets []ssa.Instruction
+	var where []*ssa.Function
+	for _, fn := range append([]*ssa.Function{q.fn}, allNested(q.fn)...) {
+		for _, in := range P.CallsTo(fn, "time.NewTimer") {
+			news = append(news, in)
+			where = append(where, fn)
+		}
+		resets = append(resets, P.CallsTo(fn, "(*time.Timer).Reset")...)
+	}
+	if len(news) == 0 {
+		q.add("WR", "the padding timer belongs to one execution", true, "no timer")
+		return
+	}
+	ok := len(resets) == 0
+	for i, fn := range where {
+		// the function that creates the timer is the work wrapper itself: the one that calls the wrapped work
+		callsWork := false
+		for _, in := range an.AllInstrs(fn, func(in ssa.Instruction) bool {
+			call, isC := in.(*ssa.Call)
+			return isC && !call.Call.IsInvoke() && call.Call.StaticCallee() == nil
+		}) {
+			if _, isB := in.(*ssa.Call).Call.Value.(*ssa.Builtin); !isB {
+				callsWork = true
+			}
+		}
+		if !callsWork || !P.PathExists(fn, nil, an.Is(news[i]), nil, nil) {
+			ok = false
+		}
+	}
+	q.add("WR", "the padding timer belongs to one execution", ok, pickS(ok, "time.NewTimer is called by the work wrapper itself and never Reset", "the rate limiter's timer is created outside the per-execution wrapper or re-armed with Reset: executions of different keys sharing the option would wait on one timer"), news...)
 }
